@@ -13,9 +13,28 @@ import (
 
 // The race binary is built against a copy of /repo into which cmd/yieldinst inserted decision
 // points at every function entry (see that command). These hooks connect them to the scheduler.
+// probeYield is written only while no engine goroutine runs (see SetProbeYield).
+var probeYield bool
+
+// SetProbeYield switches the decision points to plain runtime.Gosched calls for the in-call race
+// probe. Call it before the goroutine that calls into dst is started.
+func SetProbeYield(on bool) { probeYield = on }
+
 func init() {
 	fineAvailable = true
 	verifyield.Hook = func(site int32) {
+		if probeYield {
+			// in-call race probe (other engines in this binary): let goroutines that dst may have
+			// started run side by side instead of one after the other. The race detector recycles
+			// the context of a goroutine that has ended, and a goroutine that inherits it is ordered
+			// after everything its predecessor did, so two goroutines of dst's that never overlap in
+			// time would not be reported against each other. No shared state is touched here: that
+			// would order them as well.
+			if site%4 == 0 {
+				runtime.Gosched()
+			}
+			return
+		}
 		s := theSched
 		if s == nil || !s.Active() || !fineMode {
 			return
